@@ -32,6 +32,7 @@ var gateKinds = [...]string{"?", "send", "recv", "select", "lock"}
 type gateSite struct {
 	id       uint64
 	eligible bool
+	control  bool // the site is in a service (control-plane) function, not in the record path
 }
 
 var siteCache = map[uintptr]gateSite{} // per process; PCs are stable within one binary
@@ -75,10 +76,27 @@ func lookupSite(pcs *[6]uintptr, n int) gateSite {
 				s.eligible = true
 			}
 		}
+		if !strings.Contains(fn, "/stream.") && !strings.Contains(fn, "/funnel.") {
+			for _, p := range controlPrefixes {
+				if strings.HasPrefix(fn, p) {
+					s.control = true
+				}
+			}
+		}
 		siteCache[pc] = s
 		return s
 	}
 	return gateSite{}
+}
+
+// controlPrefixes: the services that start, stop, recover and reconfigure pipelines and keep
+// their stored state. With GateScope "control" only their operations are preemption points, so
+// that the few of them in a run (against thousands in the record path) are explored densely.
+var controlPrefixes = []string{
+	"github.com/conduitio/conduit/pkg/lifecycle.", "github.com/conduitio/conduit/pkg/lifecycle-poc.",
+	"github.com/conduitio/conduit/pkg/pipeline.", "github.com/conduitio/conduit/pkg/connector.(*Service)",
+	"github.com/conduitio/conduit/pkg/processor.(*Service)", "github.com/conduitio/conduit/pkg/provisioning.",
+	"github.com/conduitio/conduit/pkg/orchestrator.",
 }
 
 func yieldHook(kind int, n int, p0, p1, p2, p3, p4, p5 uintptr) {
@@ -92,7 +110,7 @@ func yieldHook(kind int, n int, p0, p1, p2, p3, p4, p5 uintptr) {
 		return
 	}
 	s := lookupSite(pcs, n)
-	if !s.eligible {
+	if !s.eligible || (w.cfg.GateScope == "control" && !s.control) {
 		return
 	}
 	if g.step != w.step {
